@@ -326,8 +326,10 @@ class Explorer:
                 if nxt is not None:
                     stack.append(nxt)
 
-    def scripted(self, dealer: str, vul: str, calls: List[int], full_probe_every: int = 0):
-        """One long auction, every prefix compared; optionally all 38 calls are offered at every k-th prefix."""
+    def scripted(self, dealer: str, vul: str, calls: List[int], full_probe_every: int = 0, sticky: bool = False):
+        """One long auction, every prefix compared; optionally all 38 calls are offered at every k-th prefix.  `sticky`: every illegal call
+        is first offered to the SAME engine at every prefix (a table manager may go on after a refused call): the refusals must leave no
+        trace in anything the engine answers later - the turn, the histories, the end, the contract and its declarer."""
         eng = self.eng
         e = eng.new(dealer, vul)
         law = Laws(dealer)
@@ -335,6 +337,21 @@ class Explorer:
         for n, call in enumerate(calls):
             if law.ended():
                 break
+            if sticky:
+                for c in range(38):
+                    if not law.legal(c):
+                        self.refusals += 1
+                        res = eng.take(e, c)
+                        if res != ('ok', 'ILLEGAL'):
+                            self.fail('C01.R9', 'take_bid', 'illegal call accepted' if res[0] == 'ok' else 'illegal call raises instead of being reported',
+                                      f'after {show(law.calls)} the call {call_name(c)} by {law.turn} is illegal but take_bid answers {res[1]} (it must report ILLEGAL)')
+                            return
+                now = eng.observe(e)
+                if now != obs:
+                    ch = [k for k in obs if now[k] != obs[k]]
+                    self.fail('C01.R9', 'take_bid', f'refused calls change the auction ({", ".join(ch)})',
+                              f'after {show(law.calls)} the illegal calls offered to the same engine change {ch}')
+                    return
             if full_probe_every and n % full_probe_every == 0:
                 for c in range(38):
                     if c != call:
@@ -366,6 +383,15 @@ SCRIPTS = [
     ('both partners and both sides name the final denomination', 'E', 'EW', [3, 8, 13, PASS, 18, PASS, PASS, 23, PASS, PASS, X, PASS, PASS, PASS], 1),
     ('opponent names the denomination between the partners', 'S', 'NONE', [3, 8, 13, PASS, PASS, PASS], 1),
     ('fourth seat re-opens', 'W', 'BOTH', [0, PASS, PASS, 1, PASS, PASS, X, PASS, PASS, PASS], 1),
+]
+
+
+# auctions in which a refused (insufficient) bid names a denomination before the side really names it
+STICKY = [
+    ('partner names the denomination a refused bid named first', 'N', 'NONE', [2, PASS, 6, PASS, 10, PASS, PASS, PASS], 0),        # 1H P 2D P 3C P P P
+    ('an opponent\'s refused bid names the final denomination', 'E', 'NS', [4, 8, PASS, 14, PASS, PASS, PASS], 0),
+    ('refused doubles and redoubles around a double', 'S', 'BOTH', [7, PASS, PASS, X, PASS, 13, X, XX, PASS, PASS, PASS], 0),
+    ('every denomination named upwards by alternating partners', 'W', 'EW', [0, PASS, 6, PASS, 12, PASS, 18, PASS, 24, PASS, PASS, PASS], 0),
 ]
 
 
@@ -402,6 +428,8 @@ def _task(arg):
         try:
             if t[0] == 'tree':
                 ex.explore(t[1], t[2], t[3], t[4], t[5])
+            elif t[0] == 'sticky':
+                ex.scripted(t[1], t[2], t[3], 0, sticky=True)
             else:
                 ex.scripted(t[1], t[2], t[3], t[4])
         finally:
@@ -436,6 +464,9 @@ def _explore(repo, tier: str, pid: str):
         tasks.append(('tree', d, v, dep if quick else dep + 1, 1, (), False))
     for name, d, v, calls, probe in SCRIPTS:
         tasks.append(('script', d, v, calls, probe if not quick else probe * 4, False))
+    # refused calls offered to the same engine all along the auction (exception safety of take_bid towards everything answered later)
+    for name, d, v, calls, probe in SCRIPTS[1:] + STICKY:
+        tasks.append(('sticky', d, v, calls, 0, False))
     # the same engine as compiled by `python -O` (assert statements removed): a guard written as an assert is no guard there
     tasks.append(('tree', 'N', 'NONE', 4 if quick else 5, 1, (), True))
     for name, d, v, calls, probe in SCRIPTS[1:]:
